@@ -267,7 +267,8 @@ func scripts(rows []Row, dir string, rep *Report) {
 				mdp = filepath.Join(dir, "scr", "md_plain")
 				os.MkdirAll(filepath.Join(mdp, "files"), 0755)
 			}
-			script = core.VerifJobScript(t, self, []string{"probe", s, "second " + s},
+			// every other item with the job manager's debug setting (mrp --debug)
+			script = core.VerifJobScriptDebug(len(s)%2 == 1 || strings.ContainsAny(s, "\n\r"), t, self, []string{"probe", s, "second " + s},
 				envs, mdp, "ID.x.P.S.fork0", "main", 1, 1)
 			sp := filepath.Join(dir, "job.sh")
 			os.WriteFile(sp, []byte(script), 0755)
